@@ -42,6 +42,13 @@ var leafSrc = map[string][]string{
 		"Struct[{'a' => String}]", "Enum['a', 'b']", "Variant[String, Integer]", "Any", "Pattern[/a/]", "String[1, 2]",
 		"Timespan['0-00:00:00.0', '0-00:01:30.0']", "Timestamp[default, '2020-01-01T00:00:00.000000000 UTC']"},
 	"td": {"Verif::Pair", "Verif::Ints", "Verif::Unit"},
+	// not string-serializable: serialized through the attributes of their meta types (valueToDataHash, attribute-list branch;
+	// trailing attributes that have their default are left out)
+	"tx": {"Hash[Any, Verif::Pair, 1, 3]", "Hash[Any, Verif::Pair]", "Hash[String, Verif::Ints]", "Array[Verif::Pair, 1, 3]", "Array[Verif::Pair]",
+		"Optional[Verif::Ints]", "Tuple[Verif::Pair, String]", "Tuple[Verif::Pair, 1, 3]", "Variant[Verif::Pair, String]", "Sensitive[Verif::Pair]",
+		"Type[Verif::Pair]", "NotUndef[Verif::Unit]", "Iterable[Verif::Pair]", "Callable[[Verif::Pair], String]", "Array[Array[Verif::Pair, 0, 2]]",
+		"Array[Object[{attributes => {'y' => String}}]]", "Hash[Any, Object[{attributes => {'y' => String}}], 2, 2]", "Hash[Verif::Unit, Any]",
+		"Struct[{'a' => Verif::Pair}]", "Array[Struct[{'a' => Optional[Verif::Ints]}]]"},
 }
 
 // object type definitions no loader knows: they travel as Pcore::ObjectType instances (the init hash is written into the
@@ -263,7 +270,7 @@ func hardKey(n *node, seen map[*node]bool) bool {
 
 // implOnly: the value holds something the model does not cover
 func implOnly(n *node) bool {
-	if n.kind == "tdef" && n.init == nil {
+	if (n.kind == "tdef" && n.init == nil) || (n.kind == "l" && n.lk == "tx") {
 		return true
 	}
 	for _, k := range n.kids {
